@@ -76,7 +76,7 @@ SPEC("pane.converters", "ScalarConverter.collect_errors",
      no_raise=["C04"])
 
 SPEC("pane.converters", "ScalarConverter.into_data",
-     ensures=[(lambda self, val, result: result == call(self._into_data_f, val), ["C05"], "ser")])
+     ensures=[(lambda self, val, result: result == call(self._into_data_f, val), ["C05", "C06"], "ser")])
 
 # ---------------------------------------------------------------------------------------------
 # pure string helpers used only to build `expected` texts: assumed total (strings are not interpreted here)
